@@ -68,6 +68,7 @@ def verdict (evs : List Ev) (impl : String) : String :=
     else if (toks.filter (· = "Z")).length ≠ 1 then "FAIL more than one EOF item"
     else if !flags.contains "closed" then "FAIL channel not closed after EOF"
     else if !flags.contains "wc" then "FAIL WaitClose did not return"
+    else if flags.contains "timer-late" then "FAIL the Escape report of a lone ESC came more than 60 ms after it on each of four tries (the disambiguation delay is 10 ms)"
     else if !flags.contains "immut-ok" then s!"FAIL a delivered sequence was modified before Finish ({flagsS})"
     else if evs.contains .close then
       -- Close(): what was read before it is parsed, and the items are those of a prefix of the input
